@@ -67,7 +67,7 @@ RULE = ('random dispatcher-free (and some popargs/custom-dispatch) object trees 
         'negative, complex, dotted names) through unrepr / INI; non-trivial = at least one generated key is set in some scope on '
         'the path; distinct = distinct (tree, config, path) / (sections, path, key) / literal text')
 
-PLAIN_KEYS = ['k1', 'k2', 'ns.k3']
+PLAIN_KEYS = ['k1', 'k2', 'ns.k3', 'Ns.K4']
 TOOL_KEYS = ['tools.p1.on', 'tools.p1.x', 'tools.p2.on', 'tools.p2.y', 'tools.p2.priority', 'tools.p1.z.w']
 RARE_KEYS = ['tools.staticdir.dir']
 GEN_KEYS = PLAIN_KEYS + TOOL_KEYS + RARE_KEYS + ['tools.staticdir.section']
@@ -400,6 +400,11 @@ def check_config_cases(ctx, cases, compare_model=True):
     for case in cases:
         built, runner, obs = run_config_case(case)
         reqs = case['reqs']
+        for node, name, conf, f in built.config_by_decorator:
+            if getattr(f, '_cp_config', None) != conf:
+                ctx.oracle_fail(dict(case, reqs=reqs[:1]),
+                                'the cherrypy.config(**%r) decorator left _cp_config = %r on handler %d.%s'
+                                % (conf, getattr(f, '_cp_config', None), node, name), 'config_decorator')
         seen = [o['path_info'] or p for o, (p, m) in zip(obs, reqs)]
         maxsegs = max([len([s for s in p.split('/') if s]) for p in seen] + [0])
         added = [a for nd in case['tree']['nodes'] if nd.get('disp') for a in nd['disp'].get('add', [])]
@@ -926,9 +931,9 @@ def run(ctx):
         check_any(ctx, [c])
         ctx.count('corpus')
     if ctx.quick():
-        check_config_cases(ctx, [gen_config_case(ctx.rng, i) for i in range(420)])
-        check_fc_cases(ctx, [gen_fc_case(ctx.rng) for _ in range(1500)])
-        check_literal_cases(ctx, gen_literal_cases(ctx.rng, 1200))
+        check_config_cases(ctx, [gen_config_case(ctx.rng, i) for i in range(800)])
+        check_fc_cases(ctx, [gen_fc_case(ctx.rng) for _ in range(3000)])
+        check_literal_cases(ctx, gen_literal_cases(ctx.rng, 2500))
         return
     _WORKER_LEAN[0] = ctx.lean
     jobs = [(ctx.rng.randrange(1 << 30), 500) for _ in range(32)]
